@@ -50,7 +50,7 @@ PROPS = {
              "append, splice, TOC swap, cross-session packet, structured garbage, random bytes) with hostile call shapes (frame_size 0..1 s, fec in {-1,0,1,2}, len 0/short, NULL data) and decoder "
              "ctl churn (reset, gain, complexity); non-trivial = at least one link fault fired and >=5 decode calls returned samples; distinct = 64-bit signature over the per-call sequence of "
              "(call shape, frame_size class, fec flag, result class, TOC config, fault-kind mask)",
-        fault_keys=["f_drop", "f_dup", "f_trunc", "f_flip", "f_set", "f_append", "f_splice", "f_tocswap", "f_cross", "f_garbage", "f_random", "f_reorder", "d_reset", "d_gain"],
+        fault_keys=["f_drop", "f_dup", "f_trunc", "f_flip", "f_set", "f_append", "f_splice", "f_tocswap", "f_cross", "f_garbage", "f_random", "f_reorder", "f_repeat", "d_reset", "d_gain"],
         probes_required=["valid_framing_checked", "rx_plc", "rx_fec", "rx_decoded", "rx_err-1", "rx_err-2", "rx_err-4", "mode_silk", "mode_hybrid", "mode_celt", "inspected"],
         real=REAL_CODEC, simulated=SIM_COMMON,
         assumptions=ASSUME_COMMON + ["frame_size above one second and NULL data with len>0 on multistream/projection decoders are outside the claim"],
@@ -119,6 +119,24 @@ PROPS["C14"] = dict(
                  "happens-before edges are honoured for pthread_mutex, pthread_once and atomics used by library code (treated as acquire+release)"],
 )
 
+PROPS["C20"] = dict(
+    level="exploration",
+    variants=dict(quick=[("asan", 1)], thorough=[("asan", 3), ("fixed-asan", 1)]),
+    must_build=["asan"],
+    runs=dict(quick=5000, thorough=120000), secs=dict(quick=50, thorough=600),
+    rule="one evaluation = one simulated call: an activity schedule on the sample clock (bursts of tones / voiced / music / noise / square / sweep and gaps of digital silence, low-level noise, dither or denormals, "
+         "each 0-5 s and biased to the 200/400/600 ms timer constants) encoded at a seeded rate / channels / application / complexity / bitrate / VBR-CBR / frame duration with DTX on or off and control changes "
+         "(DTX toggles, complexity, bitrate, mode) mid-stream; receivers G (DTX packets as given) and P (DTX packets as losses) plus a DTX-off reference chain; faults = loss of the first packet after a gap or of a packet inside it; "
+         "oracles on the sample clock: DTX onset within one frame of the 200 ms mark (and not before it) for digital silence when the analysis runs, every run of tiny packets < 400 ms + one frame, IN_DTX on every DTX packet, "
+         "first active frame coded normally, no tiny packet with DTX off, exact receiver durations, calibrated near-silence in the gap and level after resumption; "
+         "non-trivial = a DTX toggle or receiver loss fired or a DTX run occurred, and >=5 calls succeeded; distinct = signature over the per-frame (tiny, silent, duration, configuration class) sequence",
+    fault_keys=["rx_lost", "dtx_enabled", "dtx_disabled", "ctl_applied"],
+    probes_required=["dtx_packets", "dtx_runs", "dtx_refresh", "onset_checked", "resume_checked", "nodtx_checked", "gap_silence_checked", "resume_level_checked"],
+    real=REAL_CODEC, simulated=SIM_COMMON + ["activity schedule on the sample clock", "receivers G / P / reference chain"],
+    assumptions=ASSUME_COMMON + ["the onset clause is checked for exact digital silence with no control change since activity stopped", "near-silence and resumption-level bounds are calibrated (calib/thresholds.json C20.*)",
+                                 "'bitrate and buffer allow at least three bytes' is read conservatively as bitrate*duration/8 >= 8 bytes and max_data_bytes >= 100"],
+)
+
 # ---- MANIFEST texts (bin/mkmanifest)
 _TECH = "deterministic simulation with fault injection: "
 _NOTE = "seeded sampling, not proof; trusted: the simulator's oracles and models, the compilers/sanitizers; DRED/OSCE/custom modes not built. "
@@ -150,3 +168,7 @@ PROPS["C14"].update(
     level_text="seeded search over thread interleavings: independent codec instances run as real threads under a baton scheduler that preempts at instrumented memory accesses inside libopus; a simulator-owned ownership / happens-before detector flags any cross-task conflicting access, and every task must match its own serial execution bit for bit; each run starts from a pristine process image so lazy initialisation happens inside the run",
     level_note=_NOTE + "libc/libm internals are not instrumented; schedules are sampled, not enumerated",
     technique=_TECH + "seeded baton scheduler over real threads with preemption at compiler-instrumented memory accesses, ownership/vector-clock race oracle + serial-equivalence oracle")
+PROPS["C20"].update(
+    level_text="seeded search over activity/inactivity schedules on the simulated sample clock with DTX toggles, configuration churn and receiver-side loss of refresh / first-after-gap packets; exact timer oracles (200 ms hang-over, 400 ms refresh bound, IN_DTX, resume, no tiny packets with DTX off) plus calibrated receiver-level oracles",
+    level_note=_NOTE + "receiver level bounds are calibrated; onset clause only for exact digital silence without intervening control changes",
+    technique=_TECH + "sample-clock timers driven by seeded activity schedules, structural-timing oracles, loss faults on DTX/refresh packets")
